@@ -85,7 +85,14 @@ def gen_hierarchy(rng):
         members = []
         for k in range(rng.randint(1, 3)):
             cands = [t for t in order if derives(types, t, ht) is not None]
-            members.append({'name': f'm{k}', 'type': rng.choice(cands), 'abstract': rng.random() < 0.2})
+            m = {'name': f'm{k}', 'type': rng.choice(cands), 'abstract': rng.random() < 0.2, 'block': None, 'sub': None}
+            if rng.random() < 0.45:
+                # a second level: an element that substitutes the member, and so (transitively) the head
+                m['abstract'] = rng.random() < 0.4
+                m['block'] = 'substitution' if rng.random() < 0.15 else None
+                sub_cands = [t for t in order if derives(types, t, m['type']) is not None]
+                m['sub'] = {'name': f'm{k}s', 'type': rng.choice(sub_cands), 'abstract': rng.random() < 0.1}
+            members.append(m)
         h['subst'] = {'head_type': ht, 'head_abstract': rng.random() < 0.25,
                       'head_block': rng.choice(EBLOCKS) if rng.random() < 0.6 else None, 'members': members}
     return h
@@ -159,7 +166,11 @@ def schema_text(h):
         out += f'<xs:element name="head" type="t:{s["head_type"]}"{ab}{bl}/>'
         for m in s['members']:
             mab = ' abstract="true"' if m['abstract'] else ''
-            out += f'<xs:element name="{m["name"]}" type="t:{m["type"]}" substitutionGroup="t:head"{mab}/>'
+            mbl = f' block="{m["block"]}"' if m.get('block') else ''
+            out += f'<xs:element name="{m["name"]}" type="t:{m["type"]}" substitutionGroup="t:head"{mab}{mbl}/>'
+            if m.get('sub'):
+                sab = ' abstract="true"' if m['sub']['abstract'] else ''
+                out += f'<xs:element name="{m["sub"]["name"]}" type="t:{m["sub"]["type"]}" substitutionGroup="t:{m["name"]}"{sab}/>'
     return out + '</xs:schema>'
 
 
@@ -287,6 +298,40 @@ def variants_for(h, rng, tier):
             else:
                 ok = True
             yield elem_xml(m['name'], None, None, mkids), ok, tags
+            if m.get('sub'):
+                # Substitution Group OK (Transitive): the head's blocking constraint, the methods of the whole type chain
+                # and the sub-member itself decide; an abstract or substitution-blocking *intermediate* member does not
+                sub = m['sub']
+                skids = [nm for nm, mn in types[sub['type']]['content'] if mn == 1]
+                schain = derives(types, sub['type'], ht)
+                inter_blocks = set()
+                cur = sub['type']
+                while cur is not None and cur != ht:
+                    cur = types[cur]['base']
+                    if cur is not None and cur != ht:
+                        inter_blocks |= blockset(types[cur]['block'], h['block_default'], False)
+                stags = {'substitute', 'transitive'}
+                if m['abstract']:
+                    stags.add('abstract-intermediate')
+                if 'substitution' in blockset(m.get('block'), h['block_default'], True):
+                    stags.add('intermediate-blocks-substitution')
+                direct_blocks = blocked | blockset(types[ht]['block'], h['block_default'], False)
+                if 'substitution' in blocked:
+                    sok = False
+                    stags.add('substitution-blocked')
+                elif set(schain) & (direct_blocks | inter_blocks):
+                    sok = False
+                    stags.add('substitution-blocked-by-derivation-method' if set(schain) & direct_blocks
+                              else 'substitution-blocked-only-by-an-intermediate-type')
+                elif sub['abstract']:
+                    sok = False
+                    stags.add('abstract-member')
+                elif types[sub['type']]['abstract']:
+                    sok = False
+                    stags.add('abstract-type')
+                else:
+                    sok = True
+                yield elem_xml(sub['name'], None, None, skids), sok, stags
             # head with xsi:type of the member's type
             ok2, tags2 = ref_element(h, ht, s['head_block'], False, 't:' + m['type'], None, mkids, None,
                                      abstract_elem=s['head_abstract'])
@@ -294,7 +339,11 @@ def variants_for(h, rng, tier):
 
 
 def classify(tags, direction):
-    key = sorted(t for t in tags if t not in ('xsi:type',))
+    if 'transitive' in tags and direction == 'false-reject' and 'intermediate-blocks-substitution' in tags:
+        return 'false-reject:transitive-substitute:intermediate-member-blocks-substitution'
+    if direction == 'false-accept' and 'substitution-blocked-only-by-an-intermediate-type' in tags:
+        return 'false-accept:substitute:blocked-only-by-an-intermediate-type'
+    key = sorted(t for t in tags if t not in ('xsi:type', 'abstract-intermediate', 'intermediate-blocks-substitution'))
     return f'{direction}:{"+".join(key) or "plain-xsi-type"}'
 
 
